@@ -74,7 +74,7 @@ def h2_session(rng, rare=False):
         sid += 2
     for _ in range(rng.choice([1, 2, 4])):
         kind = rng.choice(["get", "post", "connect-nopath", "nonascii-path", "priority-first", "rst", "window-closed", "data-after-end",
-                           "padded", "trailers", "continuation", "websocket", "priority-closed", "nonascii-method",
+                           "padded", "trailers", "continuation", "websocket", "websocket-nonascii", "priority-closed", "nonascii-method",
                            "nonascii-header"]) if rare else rng.choice(["get", "post"])
         try:
             if kind == "get":
@@ -125,6 +125,11 @@ def h2_session(rng, rare=False):
             elif kind == "continuation":
                 big = [(b"x-h%d" % i, b"v" * 300) for i in range(80)]
                 c.send_headers(sid, base + big, end_stream=True)
+            elif kind == "websocket-nonascii":
+                c.send_headers(sid, [(b":method", b"CONNECT"), (b":protocol", b"websocket"), (b":scheme", b"https"), (b":path", b"/ws"),
+                                     (b":authority", b"a"), (b"sec-websocket-version", b"13"),
+                                     rng.choice([(b"sec-websocket-protocol", b"ch\xc3\xa9t"), (b"sec-websocket-extensions", b"\xff"),
+                                                 (b"connection", b"\xe9")])])
             elif kind == "websocket":
                 c.send_headers(sid, [(b":method", b"CONNECT"), (b":protocol", b"websocket"), (b":scheme", b"https"), (b":path", b"/ws"),
                                      (b":authority", b"a"), (b"sec-websocket-version", b"13")])
@@ -154,8 +159,10 @@ def h2_session(rng, rare=False):
 
 
 def ws_session(rng):
+    # handshake header values are arbitrary octets as far as HTTP/1 goes: token lists that are not ASCII must not upset anything
+    odd = rng.choice([b"", b"", b"", b"Sec-WebSocket-Protocol: ch\xe9t\r\n", b"Sec-WebSocket-Extensions: \xff\xfe\r\n", b"Connection: \xe9\r\n"])
     head = (b"GET /chat HTTP/1.1\r\nHost: x\r\nUpgrade: websocket\r\nConnection: Upgrade\r\nSec-WebSocket-Key: dGhlIHNhbXBsZSBub25jZQ==\r\n"
-            b"Sec-WebSocket-Version: 13\r\n\r\n")
+            + odd + b"Sec-WebSocket-Version: 13\r\n\r\n")
     from wsproto.connection import Connection, ConnectionType
     from wsproto.events import BytesMessage, CloseConnection, Ping, TextMessage
 
